@@ -269,7 +269,9 @@ def build_tree(sc: dict, root: str) -> T.Tuple[str, str, T.List[str]]:
         if hist.get('mode') == 'late-gate':
             call = "if get_option('vf_use_sub')\n  " + call + 'endif\n'
         top += call + probe_lines('top2', top_probe, kinds_top)
-    sub = f"project('sub'{langarg}, meson_version: '>=1.8.0'"
+    sub_lang = sc.get('sub_lang', lang)
+    sub_langarg = f", '{sub_lang}'" if sub_lang else ''
+    sub = f"project('sub'{sub_langarg}, meson_version: '>=1.8.0'"
     if sub_do:
         sub += ', default_options: ' + do_list(sub_do, form)
     sub += ')\n' + probe_lines('sub', sub_probe, kinds)
@@ -284,12 +286,12 @@ def build_tree(sc: dict, root: str) -> T.Tuple[str, str, T.List[str]]:
         files['subprojects/sub/meson.options'] = ''.join(decl_line(n, d) for n, d in sc['sub_decl'].items())
     # machine file
     sections: T.Dict[str, T.List[str]] = {}
-    native_build: T.List[str] = []
+    native_build: T.Dict[str, T.List[str]] = {}
     for source, pfx in ((S3, ''), (S7, 'sub:')):
         for n, v in srcs.get(source, []):
-            if sc.get('cross') and source == S3 and n.startswith('build.'):
+            if sc.get('cross') and n.startswith('build.'):
                 # the build machine's value of a per-machine option comes from the native file (unprefixed there)
-                native_build.append(f'{n[6:]} = {emit_ini(v, n)}')
+                native_build.setdefault(pfx + 'built-in options', []).append(f'{n[6:]} = {emit_ini(v, n)}')
                 continue
             proj = n in (sc['top_decl'] if source == S3 else sc['sub_decl']) or sc.get('force_project_section', {}).get(n)
             sec = pfx + ('project options' if proj else 'built-in options')
@@ -303,7 +305,7 @@ def build_tree(sc: dict, root: str) -> T.Tuple[str, str, T.List[str]]:
         argv += ['--cross-file', os.path.join(src, 'cross.ini')]
         decoy = sc.get('native_decoy')
         if native_build:
-            decoy = (decoy or '') + '[built-in options]\n' + '\n'.join(native_build) + '\n'
+            decoy = (decoy or '') + ''.join(f'[{sec}]\n' + '\n'.join(lines) + '\n' for sec, lines in native_build.items())
         if decoy:
             files['native.ini'] = decoy
             argv += ['--native-file', os.path.join(src, 'native.ini')]
@@ -606,6 +608,21 @@ def gen_subsets(group: str, names: T.Sequence[str], scope: str, masks: T.Iterabl
     return out
 
 
+def gen_combined(group: str, parts: T.Sequence[T.Tuple[T.Sequence[str], str]], masks: T.Iterable[int], seed: int) -> T.List[dict]:
+    """One setup per source subset that carries several independent option families at once (quick tier):
+    every family still meets every subset, at the price of one setup instead of one per family."""
+    out = []
+    for mask in masks:
+        variant = (mask + seed) % 2
+        sc = new_sc(f'{group}:{mask:02x}:{variant}', group, mask=mask, variant=variant, scopes={})
+        for names, scope in parts:
+            for n in names:
+                add_option(sc, n, scope, mask_sources(mask), variant + seed * 2)
+                sc['scopes'][n] = scope
+        out.append(sc)
+    return out
+
+
 def gen_top16(seed: int) -> T.List[dict]:
     """Top-level only: all subsets of {cmd, mfile, proj} x {declared default given, omitted}."""
     out = []
@@ -841,6 +858,37 @@ def gen_per_machine(thorough: bool, seed: int, rng: T.Any) -> T.List[dict]:
                         sc['expect']['top|build.' + name] = rb
                         sc['expect']['sub|build.' + name] = rb
                 out.append(sc)
+    return out
+
+
+def gen_sub_first_language(thorough: bool, seed: int, rng: T.Any) -> T.List[dict]:
+    """The subproject is the FIRST project to add the language (the parent has none), so every compiler-option
+    value given for it -- globally or as sub:opt, for the host and, in a cross build, for the build machine --
+    arrives before the option exists and waits until the compilers are detected.  Compiler options are per
+    subproject and per machine (Builtin-options.md), so host and build variant each follow the eight-step
+    order inside the subproject."""
+    out: T.List[dict] = []
+    singles = [1 << i for i in range(8)]
+    if thorough:
+        plan = [(m, True) for m in singles + [255, 0] + rng.sample(range(1, 255), 40)] + \
+               [(m, False) for m in singles + [255] + rng.sample(range(1, 255), 20)]
+    else:
+        pick = rng.sample(singles, 2)
+        plan = [(0x80, True), (0x10 | 0x08, True), (pick[0] | 0x40, True), (255, True), (0x80 | 0x08, False), (pick[1], False)]
+    for m, cross in plan:
+        g = 'XSF' if cross else 'NSF'
+        sc = new_sc(f'{g}:{m:02x}', g, mask=m, cross=cross, sub_lang='c', scope='builtin_persub', use_intro=False)
+        names = ['c_args'] + (['build.c_args', 'build.c_link_args'] if cross else ['c_link_args'])
+        for name in names:
+            vals = {}
+            for s_ in mask_sources(m):
+                tag = f'S{S.index(s_) + 1}'
+                vals[s_] = [f'-DVF_{name.replace(".", "_").upper()}_{tag}=1']
+                add_src(sc, s_, name, vals[s_])
+            sc['kinds'][name] = 'array'
+            sc['probe_sub'].append(name)
+            sc['expect']['sub|' + name] = exp(R.resolve_sub('builtin_persub', vals, []))
+        out.append(sc)
     return out
 
 
@@ -1260,7 +1308,7 @@ def classify(sc: dict, mm: dict) -> str:
             dflt = R.BUILTINS[name].default
         if observed is not None and dflt is not None and (same(name, dflt, str(observed)) or same_val(dflt, observed)):
             got_src = 'default'
-    scope = sc.get('scope') or sc['group']
+    scope = sc.get('scopes', {}).get(name) or sc.get('scope') or sc['group']
     bad_ch = sorted({c[0].split(':')[0] for c in mm['channels'] if not c[2]})
     if sc['group'] in ('XPM', 'NPM'):
         variant = 'build' if name.startswith('build.') else 'host'
@@ -1467,8 +1515,12 @@ def scenarios(chk: common.Check) -> T.List[dict]:
     pk = list(PROJECT_KINDS)
     out += gen_directed()
     out += gen_top16(seed)
-    out += gen_subsets('PN', pk, 'project', all256, seed, both_variants=thorough)
-    out += gen_subsets('BS', BUILTIN_PERSUB, 'builtin_persub', all256, seed, both_variants=thorough)
+    if thorough:
+        out += gen_subsets('PN', pk, 'project', all256, seed, both_variants=True)
+        out += gen_subsets('BS', BUILTIN_PERSUB, 'builtin_persub', all256, seed, both_variants=True)
+    else:
+        # quick: the six project-option kinds and the eight per-subproject builtins share one setup per subset
+        out += gen_combined('PB', [(pk, 'project'), (BUILTIN_PERSUB, 'builtin_persub')], all256, seed)
     ymasks = list(all256) if thorough else [m for m in all256 if not (m & 0b01110010)] + \
         chk.rng.sample([m for m in all256 if m & 0b01110010], 20)
     out += gen_subsets('PY', pk, 'project_yield', ymasks, seed, both_variants=thorough)
@@ -1482,6 +1534,7 @@ def scenarios(chk: common.Check) -> T.List[dict]:
     out += gen_histories(thorough, seed, chk.rng)
     out += gen_cmd_spellings(thorough, seed)
     out += gen_per_machine(thorough, seed, chk.rng)
+    out += gen_sub_first_language(thorough, seed, chk.rng)
     out += gen_buildtype(seed, thorough, chk.rng)
     out += gen_buildtype_sub(seed)
     out += gen_invalid(thorough, seed)
@@ -1499,9 +1552,9 @@ def scenarios(chk: common.Check) -> T.List[dict]:
         out += gen_subsets('PNx', pk, 'project', all256, seed, cross=True,
                            native_decoy="[project options]\nps = 'vf_decoy'\npi = 999\n[sub:project options]\nps = 'vf_decoy'\npi = 999\n")
     # a time cut (quick: 150 s) drops the tail: cheap, deciding groups first, the C-compiler group last
-    prio = ['KF', 'T16', 'PN', 'BS', 'LPN', 'LBS', 'RPN', 'RBS', 'XPM', 'NPM', 'BSL', 'BGL', 'YT', 'DIRS', 'PY', 'PS', 'INV', 'UNK', 'DIR', 'BT', 'BTS',
+    prio = ['KF', 'T16', 'PB', 'PN', 'BS', 'LPN', 'LBS', 'RPN', 'RBS', 'XPM', 'NPM', 'BSL', 'BGL', 'YT', 'DIRS', 'PY', 'PS', 'INV', 'UNK', 'DIR', 'BT', 'BTS',
             'BG', 'BGS', 'BND', 'MF', 'OVI']
-    out.sort(key=lambda sc: prio.index(sc['group']) if sc['group'] in prio else len(prio) + (sc['group'] in ('CC', 'CX')))
+    out.sort(key=lambda sc: prio.index(sc['group']) if sc['group'] in prio else len(prio) + (sc['group'] in ('CC', 'CX', 'XSF', 'NSF')))
     return out
 
 
@@ -1533,7 +1586,7 @@ def main() -> int:
     if only:
         scs = [s for s in scs if s['group'] in only.split(',')]
     root = common.scratch_dir('c07')
-    budget = 150.0 if chk.tier == 'quick' else 1100.0
+    budget = 130.0 if chk.tier == 'quick' else 1100.0
     # cheap language-less scenarios first; C ones last, biggest first inside pmap chunks
     t0 = time.time()
     items = [(sc, os.path.join(root, f'{i:05d}')) for i, sc in enumerate(scs)]
@@ -1549,7 +1602,7 @@ def main() -> int:
         if res is None:
             continue
         judge(chk, sc, res, orders)
-        if sc['group'] in ('PN', 'BS', 'BT', 'INV', 'PY', 'DIR') and sc['id'].split(':')[1] not in ('00',):
+        if sc['group'] in ('PB', 'PN', 'BS', 'BT', 'INV', 'PY', 'DIR') and sc['id'].split(':')[1] not in ('00',):
             if len([s for s in chk.samples if s['id'].startswith(sc['group'])]) < 1:
                 chk.sample({**source_view(sc), 'argv': res.get('argv'), 'observed': res.get('observed'),
                             'rc': res['rc'], 'set_option_trace': res.get('trace', [])[:12]}, limit=8)
